@@ -14,6 +14,15 @@ for d in seeded/*/; do
   git -C /repo checkout -- .
   det="MISSED"; [ $rc -eq 1 ] && det="DETECTED"
   rule=$(echo "$out" | grep -A1 "^VIOLATION" | grep "kind=" | head -2 | sed 's/^ *//' | cut -c1-200 | tr '\n' '|')
-  echo "$det" > $d/.detected; echo "$rule" > $d/.rule
+  python3 - "$d" "$det" "$rule" <<PY
+import json,sys
+p=sys.argv[1]+"/meta.json"
+try:
+    m=json.load(open(p))
+except Exception:
+    m={}
+m["check_result"]=sys.argv[2]; m["rules_fired"]=sys.argv[3]
+json.dump(m,open(p,"w"),indent=1)
+PY
   echo "SEED $name: $det $rule"
 done
